@@ -29,7 +29,13 @@ def gen_cases(rng, tier, count=None):
     ns = [10, 17, 30, 64, 100, 150, 257, 400] + ([800, 1500, 2000] if tier == "thorough" else [600])
     for i in range(count):
         n = int(rng.choice(ns)) if i % 2 else int(rng.integers(10, 400 if tier == "quick" else 1200))
+        if i % 10 == 3:
+            n = int(rng.integers(10, 41))  # tiny budgets: h_max = floor(n/H_n) is smaller than the arity K
         c = gen.algo_case(rng, "SequOOL", tier, fams=FAMS, early_stop=False, n=n)
+        if i % 10 == 3:
+            # the property does not stop at the budget: "once the schedule is exhausted, further pulls return the
+            # domain centre" - keep pulling until the schedule is exhausted even if that is beyond n
+            c["T"] = 6 * n
         T = c["T"]
         if rng.random() < 0.6:
             c["queries"] = list(range(T))  # after every round: the recommendation at exhaustion is known exactly
